@@ -22,6 +22,10 @@ mod c13;
 mod c08;
 mod crash;
 mod crashchecks;
+mod c22;
+mod c23;
+mod childsrv;
+mod fuzzrun;
 mod c05;
 mod c26;
 mod c27;
@@ -67,6 +71,24 @@ fn main() {
         println!("200 selects: {:?}", t0.elapsed());
         std::process::exit(0);
     }
+    if args.len() >= 3 && args[2] == "--serve" {
+        // hidden sub-command: child process of C22 / C23 (see childsrv.rs)
+        let code = match args[1].as_str() {
+            "C22" => childsrv::serve(c22::serve_handler),
+            "C23" => childsrv::serve(c23::serve_handler),
+            _ => 2,
+        };
+        std::process::exit(code);
+    }
+    if args.len() >= 4 && args[2] == "--emit-corpus" {
+        // writes seed inputs (valid encodings) in fuzz input format under <dir>/<target>/
+        let code = match args[1].as_str() {
+            "C23" => c23::emit_corpus(&args[3], 40),
+            "C22" => c22::emit_corpus(&args[3]),
+            _ => 2,
+        };
+        std::process::exit(code);
+    }
     if args.len() < 3 {
         eprintln!("usage: vcheck <Cnn> <quick|thorough>|--replay <file>");
         std::process::exit(2);
@@ -104,6 +126,8 @@ fn main() {
         "C01" => crashchecks::main("C01", tier, replay.clone()),
         "C02" => crashchecks::main("C02", tier, replay.clone()),
         "C40" => crashchecks::main("C40", tier, replay.clone()),
+        "C22" => c22::main(tier, replay.clone()),
+        "C23" => c23::main(tier, replay.clone()),
         "C05" => c05::main(tier, replay.clone()),
         "C26" => c26::main(tier, replay.clone()),
         "C27" => c27::main(tier, replay.clone()),
